@@ -85,7 +85,7 @@ func cmdRetry(args map[string]string) {
 		}
 	}
 	{
-		ctx, cancel := context.WithCancel(context.Background())
+		ctx, cancel := withCancelCause(context.Background())
 		t := time.Now()
 		go func() { time.Sleep(2 * time.Millisecond); cancel() }()
 		bigbuff.VerifWaitDuration(ctx, time.Hour)
@@ -109,7 +109,7 @@ func (b baseErr) Error() string { return fmt.Sprintf("base%d", b.id) }
 // retryCase runs one scenario; a scenario without cancellation invokes the function ExponentialRetry returned a second
 // time (same script): every invocation is a fresh retry loop (second event, "again": true)
 func retryCase(seq []string, cancelAt string, rate time.Duration) []rec.Ev {
-	ctx, cancel := context.WithCancel(context.Background())
+	ctx, cancel := withCancelCause(context.Background())
 	defer cancel()
 	if cancelAt == "pre" {
 		cancel()
@@ -216,4 +216,3 @@ func retryCase(seq []string, cancelAt string, rate time.Duration) []rec.Ev {
 	}
 	return out
 }
-
